@@ -13,7 +13,7 @@ CHECKS = {
    technique="property-based testing against an independent track/segment reference model (tiling validity predicate)"),
 
  "C09": dict(level="exploration", design="4/C09",
-   text="The single-relation table (4 sides x 2 orthogonal alignments x 4 x 4 reflections x 3 separation kinds = 384) exhaustively; seeded proptest search over placement programs of 1-25 instances (chains and trees over rectangular and two-step outlines, relabelled and shuffled, each placed in two listing orders; some instances handed over through Layout::places; the program cell listed, listed after its user, or reachable only through an instance; a twin cell with shifted roots in the same library must be placed identically), cyclic programs and cells that contain an instance of themselves - directly or through a unit cell, in `instances` or among the objects awaiting placement (must be errors, never a deadlock; literal regression for ab62e2a) - programs whose instances are unnamed or share names (sub-check same-names), and absolute array instances (unit cells listed, or reached through arrays nested up to three deep only and holding a relative pair of their own that must come out placed) (count 1-6, pitch in x/y, both reflections, nesting depth <= 3). Oracle: bounding-box model of the relation computed from (location, cell size, reflections), required to equal Instance::boundbox(); reference expansion for arrays.",
+   text="The single-relation table (4 sides x 2 orthogonal alignments x 4 x 4 reflections x 3 separation kinds = 384) exhaustively; seeded proptest search over placement programs of 1-25 instances (chains and trees over rectangular and two-step outlines, relabelled and shuffled, each placed in two listing orders; some instances handed over through Layout::places; the program cell listed, listed after its user, or reachable only through an instance; a twin cell with shifted roots in the same library must be placed identically), cyclic programs and cells that contain an instance of themselves - directly or through a unit cell, in `instances` or among the objects awaiting placement (must be errors, never a deadlock; literal regression for ab62e2a) - programs whose instances are unnamed or share names (sub-check same-names), separations at the top of the integer range whose result is still representable (sub-check extreme-separations, decided in 128-bit arithmetic), and absolute array instances (unit cells listed, or reached through arrays nested up to three deep only and holding a relative pair of their own that must come out placed) (count 1-6, pitch in x/y, both reflections, nesting depth <= 3). Oracle: bounding-box model of the relation computed from (location, cell size, reflections), required to equal Instance::boundbox(); reference expansion for arrays.",
    note="Non-orthogonal side/alignment pairs, Center/Ports alignment, placement relative to arrays/groups, relative array placement are unimplemented in the code and outside the quantifier.",
    technique="exhaustive table + property-based testing against a reference placement model; order-independence as a metamorphic relation"),
  "C19": dict(level="exploration", design="4/C19",
@@ -32,7 +32,7 @@ CHECKS = {
    technique="property-based testing: serialise/deserialise round-trip oracle with bit-exact comparison"),
 
  "C11": dict(level="fault_enumeration", design="4/C11",
-   text="Exhaustive fault enumeration over 40 rendered LEF texts (with and without lexical variation / non-ASCII comments) and the repository's macro.lef: every prefix at every character boundary, every single-token fault (delete, duplicate, swap, replace by 27 keywords/numbers incl. the extremes of the 96-bit decimal type/punctuation/unterminated string) at every token; floods of 50 000 copies of a token or phrase read on a 2 MB stack; proptest-driven insertion of multi-byte, odd-whitespace (VT, NEL, NBSP, EM SPACE, BOM, NUL) and delimiter characters anywhere; token soup with arbitrary Unicode scalars. Oracle: LefLibrary::open returns, also on its error-report path (panics caught in-process, aborts/hangs by the supervising process with CPU limit); an Ok library can be written and re-read without a crash; allocation at most doubles when the input doubles.",
+   text="Exhaustive fault enumeration over 40 rendered LEF texts (with and without lexical variation / non-ASCII comments) and the repository's macro.lef: every prefix at every character boundary, every single-token fault (delete, duplicate, swap, replace by some 70 keywords, numbers, literals and names incl. the extremes of the 96-bit decimal type/punctuation/unterminated string) at every token; floods of 50 000 copies of a token or phrase read on a 2 MB stack; every BUSBITCHARS / DIVIDERCHAR declaration (ordinary, reversed, doubled, multi-byte, empty) against every pin-name shape, the statement before or after the macro (748 texts, sub-check header-statements); proptest-driven insertion of multi-byte, odd-whitespace (VT, NEL, NBSP, EM SPACE, BOM, NUL) and delimiter characters anywhere; token soup with arbitrary Unicode scalars. Oracle: LefLibrary::open returns, also on its error-report path (panics caught in-process, aborts/hangs by the supervising process with CPU limit); an Ok library can be written and re-read without a crash; allocation at most doubles when the input doubles.",
    note="Termination = returns before the 30 s in-flight watchdog / 20 s CPU in isolation; linear time checked on allocation volume and on thread CPU time (n vs 16n).",
    technique="fault enumeration + property-based mutation; crash/hang oracle via supervised child processes"),
  "C16": dict(level="exploration", design="4/C16",
